@@ -534,7 +534,9 @@ def run_case(ctx, case: dict) -> None:
 
 
 def _run_case(ctx, case: dict) -> None:
-    if case.get("kind") == "resend-after-release":
+    if case.get("kind") == "slow-write-send":
+        slow_write_send_case(ctx, case)
+    elif case.get("kind") == "resend-after-release":
         arun(resend_after_release_case(ctx, case))
     elif case.get("kind") == "vanished-child":
         arun(vanished_child_case(ctx, case))
@@ -554,6 +556,66 @@ def _run_case(ctx, case: dict) -> None:
         arun(nonmessage_case(ctx, case))
     else:
         arun(send_case(ctx, case))
+
+
+def slow_write_send_case(ctx, case: dict) -> None:
+    """The transport takes `seconds` (virtual) to accept the line of a send - the peer is not reading, the broker is slow -
+    and then accepts it.  The send still ends in one of the three ways: it returns after the write, or it raises a LIBRARY
+    error (a give-up is fine, a builtin TimeoutError is not)."""
+    from aiomysensors.model.message import Message
+    from aiomysensors.model.node import Child, Node
+
+    from .. import harness
+    from ..vloop import LogicalDeadlock, run_virtual
+
+    box: dict = {}
+
+    async def scenario() -> None:
+        harness.CONFIG_EXTRA.clear()
+        harness.CONFIG_EXTRA.update(case.get("config_extra") or {})
+        try:
+            gateway, transport = new_gateway(case["version"])
+        finally:
+            harness.CONFIG_EXTRA.clear()
+        gateway.nodes[DEST] = Node(DEST, 17, "2.0", children={0: Child(0, 3)})
+        transport.gate = True
+        task = asyncio.ensure_future(gateway.send(Message(*case["fields"])))
+        waited = 0.0
+        while waited < case["seconds"] and not task.done():
+            step = max(0.5, case["seconds"] / 40)
+            await asyncio.sleep(step)
+            waited += step
+        box["done_before_release"] = task.done()
+        while not task.done():
+            for future, _line, _attempt in list(transport.pending):
+                if not future.done():
+                    future.set_result(False)
+            transport.pending.clear()
+            await asyncio.sleep(0)
+        try:
+            await task
+            box["outcome"] = "ok"
+        except Exception as exc:  # noqa: BLE001
+            box["outcome"] = exc
+        box["writes"] = list(transport.writes)
+
+    result, _loop = run_virtual(scenario)
+    ctx.case(("slow-write-send", case["version"], tuple(case["fields"]), case["seconds"],
+              repr(sorted((case.get("config_extra") or {}).items()))), sample=case)
+    if isinstance(result, LogicalDeadlock):
+        ctx.violation("send-deadlock", f"logical deadlock in {case}", case)
+        return
+    if isinstance(result, BaseException):
+        from ..harness import scenario_exception
+
+        scenario_exception(ctx, result, case, "slow-write-send")
+        return
+    ctx.clause("send-with-a-slow-write")
+    outcome = box["outcome"]
+    if isinstance(outcome, BaseException) and not is_library_error(outcome):
+        ctx.violation("send-foreign-exception-" + type(outcome).__name__,
+                      f"the write of send({case['fields']}) stayed pending for {case['seconds']} virtual seconds: send raised "
+                      f"{type(outcome).__name__}({outcome!s:.60})", case)
 
 
 async def resend_after_release_case(ctx, case: dict) -> None:
@@ -667,6 +729,9 @@ def unknown_option_pass(ctx) -> None:
                     for how, stale_first in itertools.product(("child-removed", "re-presented"), (True, False)):
                         arun(vanished_child_case(ctx, {"kind": "vanished-child", "version": version, "how": how,
                                                        "stale_first": stale_first, "config_extra": extra}))
+                for seconds in (0.5, 4, 11, 31, 61, 301, 3601):
+                    slow_write_send_case(ctx, {"kind": "slow-write-send", "version": version, "fields": pool[0],
+                                               "seconds": seconds, "config_extra": extra})
             ctx.clause("unknown-option-pass")
         finally:
             harness.CONFIG_EXTRA.clear()
@@ -710,6 +775,13 @@ def run(ctx) -> None:
         pair_pool = [[DEST, 0, 1, 0, 2, "s1"], [DEST, 0, 2, 0, 2, ""], [DEST, 0, 1, 1, 3, "s2"], [DEST, 7, 2, 0, 2, ""],
                      [DEST, 7, 1, 0, 2, "s3"], [DEST, 255, 3, 0, 13, ""], [DEST, 0, 0, 0, 6, "p"], [DEST, 255, 4, 0, 0, "fw"],
                      [DEST, 0, 2, 1, 3, "q"], [DEST, 255, 3, 0, 19, ""]]
+        from .. import codedict
+
+        for version in (None, "1.5", "2.2"):
+            for fields in ([DEST, 0, 1, 0, 2, "slow"], [DEST, 255, 3, 1, 13, ""], [DEST, 0, 2, 0, 2, ""]):
+                for seconds in codedict.durations()[::3]:
+                    if ctx.mine():
+                        slow_write_send_case(ctx, {"kind": "slow-write-send", "version": version, "fields": fields, "seconds": seconds})
         for version in ("2.0", "2.1", "2.2"):
             for ack, rounds, update, fail_between in itertools.product((0, 1), (2, 4), (False, True), (False, True)):
                 if ctx.mine():
